@@ -85,10 +85,12 @@ func sigV(d *common.SignatureData) val.V {
 }
 
 type signRun struct {
-	sigs    []*common.SignatureData
-	errs    []string
-	emitted int
-	net     *sched.Net
+	rounds   *roundValues
+	edRounds *edRoundValues
+	sigs     []*common.SignatureData
+	errs     []string
+	emitted  int
+	net      *sched.Net
 }
 
 func pickKeys(keys []ecdsakeygen.LocalPartySaveData, pids tss.SortedPartyIDs, idx []int) ([]ecdsakeygen.LocalPartySaveData, tss.SortedPartyIDs) {
@@ -119,8 +121,10 @@ func runECDSASign(ref string, signers []int, kis, gammas []*big.Int, m *big.Int,
 	}
 	rc := buildECDSASign(sk, sp, t, signOpts{msg: m, fullLen: fullLen, first: first, seed: fmt.Sprintf("c01-%d", seed), kdd: kdd})
 	rc.net.Rng = rand.New(rand.NewSource(seed))
+	rv := newRoundValues()
+	rc.net.Tamper = rv.record
 	rc.net.Run(st, 200000)
-	sr := &signRun{net: rc.net}
+	sr := &signRun{net: rc.net, rounds: rv}
 	for _, n := range rc.net.New {
 		n.Results()
 		for _, r := range rc.results[n.Name] {
@@ -315,6 +319,9 @@ func genC01(r *vc.Run) {
 			r.Record(fmt.Sprintf("ecdsa_sign/%s/%d-signers/%s", c.ref, len(c.signers), class), true, "ecdsa_sign", args, obs)
 			ecdsaOracles(r, sr, pub, m, full[di], vc.Line("ecdsa_sign", args), nil)
 			if len(sr.sigs) > 0 {
+				if sr.rounds != nil && full[di] <= 32 {
+					roundOracles(r, sr.rounds, len(sp), kis, gs, m, lagrangeSecret(q, ids, xs), sr.sigs[0].R, sr.sigs[0].S, vc.Line("ecdsa_sign", args))
+				}
 				s := new(big.Int).SetBytes(sr.sigs[0].S)
 				_ = s
 				r.Dist[fmt.Sprintf("recid=%d", sr.sigs[0].SignatureRecovery[0])]++
@@ -354,8 +361,10 @@ func runEdDSASign(ref string, signers []int, ris []*big.Int, m *big.Int, fullLen
 	}
 	rc := buildEdDSASign(sk, sp, t, signOpts{msg: m, fullLen: fullLen, first: first, seed: fmt.Sprintf("c02-%d", seed)})
 	rc.net.Rng = rand.New(rand.NewSource(seed))
+	erv := newEdRoundValues()
+	rc.net.Tamper = erv.record
 	rc.net.Run(st, 200000)
-	sr := &signRun{net: rc.net}
+	sr := &signRun{net: rc.net, edRounds: erv}
 	for _, n := range rc.net.New {
 		n.Results()
 		for _, r := range rc.results[n.Name] {
@@ -470,6 +479,9 @@ func genC02(r *vc.Run) {
 			nruns++
 			r.Record(fmt.Sprintf("eddsa_sign/%s/%d-signers/len%d/%s", c.ref, len(c.signers), len(mc.b), cls), true, "eddsa_sign", args, obs)
 			eddsaOracles(r, sr, pub.X(), pub.Y(), vc.Line("eddsa_sign", args))
+			if len(sr.sigs) > 0 && sr.edRounds != nil {
+				edRoundOracles(r, sr.edRounds, len(ris), ris, sr.sigs[0].Signature, vc.Line("eddsa_sign", args))
+			}
 		}
 	}
 }
